@@ -206,10 +206,10 @@ def signature(scn_name, ex):
     return scn_name + "|" + "+".join(sorted(parts)) + fin
 
 
-def check(prop, scns, level="model_checking"):
+def check(prop, scns, level="model_checking", sub="", design=True):
     from core import write_evidence
     t0 = time.time()
-    d = rundir("%s_conc_%s" % (prop, tier()))
+    d = rundir("%s_conc%s_%s" % (prop, sub, tier()))
     sd = spec_copy(d)
     max_exec = 1500 if tier() == "quick" else 20000
     out, idx = explore(d, scns, max_exec)
@@ -237,7 +237,7 @@ def check(prop, scns, level="model_checking"):
                 rejected.append((bytr[tr], ex))
     sigs = {}
     for info, ex in rejected:
-        sigs.setdefault(signature(info["scenario"], ex), []).append((info, ex))
+        sigs.setdefault(signature(re.sub(r"#\d+$", "", info["scenario"]), ex), []).append((info, ex))
     unknown, known = split_known(prop, list(sigs))
     for k in known:
         print("KNOWN-FINDING: property=%s %s (%s; %d executions)" % (prop, k["key"], k.get("what", ""), len(sigs[k["key"]])))
@@ -262,7 +262,7 @@ def check(prop, scns, level="model_checking"):
         for ex in load_shard(os.path.join(out, sh)):
             by_tr[ex[0]["tr"]] = ex
     try:
-        layer2 = steps.design_check(sd, with_crash=False)
+        layer2 = steps.design_check(sd, with_crash=False) if design else {"distinct_states": 0, "states_generated": 0, "skipped": "run with the enumerated scenarios"}
         conf = steps.conformance(sd, scns, idx, by_tr)
     except Infra as ex:
         if not viol:
@@ -290,3 +290,34 @@ def check(prop, scns, level="model_checking"):
         "known_findings_seen": [k["key"] for k in known],
     }
     return cov, len(viol), time.time() - t0
+
+
+def guided_templates():
+    """Scenarios of four and five concurrent requests - more than the enumeration of interleavings can afford - whose schedules are
+    drawn from behaviours of MintSteps (TLC simulation) and replayed on the real mint."""
+    mq = lambda amt: {"op": "meltquote", "kind": "ext", "amt": amt}
+    pm = lambda q: {"op": "pollmelt", "q": q}
+    post1 = PROBE + [pm("lq1"), {"op": "checkstate", "ys": ["b1"]}, {"op": "balances"}]
+    post2 = PROBE + [pm("lq1"), pm("lq2"), {"op": "checkstate", "ys": ["b1"]}, {"op": "balances"}]
+    pend = FUND + [mq(7), melt("lq1", "b1", pay=["pending"])]
+    return [
+        scenario("G/melt-poll-melt-swap", "C01", FUND + [mq(7)], [melt("lq1", "b1"), pm("lq1"), melt("lq1", "b1"), swap("b1", [8])], post=post1),
+        scenario("G/melt-poll-melt2-swap-poll2", "C01", FUND + [mq(7), mq(6)],
+                 [melt("lq1", "b1"), pm("lq1"), melt("lq2", "b1"), swap("b1", [8]), pm("lq2")], post=post2),
+        scenario("G/poll-poll-remelt-swap", "C01", pend, [pm("lq1"), pm("lq1"), melt("lq1", "b1"), swap("b1", [8])], post=post1),
+        scenario("G/melt-melt-poll-swap-swap", "C01", FUND + [mq(7)],
+                 [melt("lq1", "b1"), melt("lq1", "b1"), pm("lq1"), swap("b1", [8]), swap("b1", [4, 4])], post=post1),
+    ]
+
+
+def guided_check(prop, num=None):
+    """Behaviours of MintSteps (TLC -simulate) replayed on the real mint as fixed schedules with the behaviour's Lightning answers
+    scripted; every execution validated by MintAccept, its call sequence by MintStepsTrace."""
+    import steps
+    num = num or (25 if tier() == "quick" else 1000)
+    sd0 = spec_copy(rundir("%s_guidedgen_%s" % (prop, tier())))
+    scns, stats = steps.guided_scenarios(sd0, guided_templates(), num, seed())
+    cov, nviol, dt = check(prop, scns, sub="_guided", design=False)
+    cov["generated_from_model"] = stats
+    cov.pop("samples", None)
+    return cov, nviol, dt
